@@ -27,14 +27,16 @@ From DD Require Import MddOps2 Driver5.
 Local Open Scope string_scope.
 
 (** (a) The link.  From a manager with the invariant, exact counters,
-    reordering off, an empty oracle tape and held [roots], the prefix
+    reordering off, no bound on the number of nodes ([max_nodes = None]: with
+    a bound the swaps of [reorder] may raise [RuntimeError]), an empty oracle
+    tape and held [roots], the prefix
     [collect_garbage() ; reorder(bdd, order)] of [bdd_to_mdd] succeeds and
     reaches a state that satisfies the hypotheses of the conversion proper
     ([Inv], [last_len = None], [b2m_wf dvars], no unreferenced node), where
     the variables are in the target order and every held node keeps its
     function by name. *)
 Theorem C15b_prefix_link dvars s L :
-  Inv s → Counts s L → last_len s = None → tape s = [] →
+  Inv s → Counts s L → last_len s = None → max_nodes s = None → tape s = [] →
   (∀ u, u ∈ roots s → held L u) → dvars_wf dvars s →
   ∃ s1 s2, collect_garbage None s = (Ok tt, s1) ∧
     reorder (Some (list_to_map (b2m_b2s dvars))) s1 = (Ok tt, s2) ∧
@@ -60,7 +62,8 @@ Theorem C15b_tail_total dvars s L order :
 Proof. exact (bdd_to_mdd_tail_total dvars s L order). Qed.
 
 (** The full theorem.  [bdd_to_mdd(bdd, dvars)] on a manager with the
-    invariant, exact counters [L], reordering off, an empty oracle tape, held
+    invariant, exact counters [L], reordering off, no bound on the number of
+    nodes, an empty oracle tape, held
     roots, the terminal held ([0 < L 1], true of every manager since
     [BDD()] references the terminal once), and a well-formed [dvars]:
     - the collection and the reordering succeed; the BDD manager keeps the
@@ -75,7 +78,7 @@ Proof. exact (bdd_to_mdd_tail_total dvars s L order). Qed.
       node on the bit assignment given by the binary digits, by bit name.
       (A reference [-u] maps to [-x]: [MD_neg], [D_neg].) *)
 Theorem C15b_bdd_to_mdd_correct dvars order s L r s' :
-  Inv s → Counts s L → last_len s = None → tape s = [] →
+  Inv s → Counts s L → last_len s = None → max_nodes s = None → tape s = [] →
   (∀ u, u ∈ roots s → held L u) → 0 < L 1%positive → dvars_wf dvars s →
   bdd_to_mdd dvars order s = (r, s') →
   ∃ s1 s2, collect_garbage None s = (Ok tt, s1) ∧
@@ -110,7 +113,8 @@ Definition C15b_dvars : list (nat * (nat * list nat)) := [(10, (0, [0; 1])); (11
 
 Example C15b_conversion :
   let s := world2_get C15b_bdd 0 in
-  last_len s = None ∧ tape s = [] ∧ roots s = [] ∧ dvars_wf_b C15b_dvars s = true ∧
+  last_len s = None ∧ max_nodes s = None ∧ tape s = [] ∧ roots s = [] ∧
+  dvars_wf_b C15b_dvars s = true ∧
   match bdd_to_mdd C15b_dvars [4%positive; 6%positive] s with
   | (Ok (mdd, umap), s') =>
       bool_decide (b2m_order_ok [4%positive; 6%positive] s') = true ∧
